@@ -137,3 +137,23 @@ Qed.
 
 Example spec_ido_ex : spec_ido_blocks [[0; 2]; [1; 5]; [0]] = [0; 2; 4; 8; 9].
 Proof. reflexivity. Qed.
+
+(* ---- rejection of malformed date/time, on the domain where the model of
+   strptime/float is exact ---------------------------------------------------- *)
+Theorem join_rejects_strict inputs :
+  (forall m, In m inputs -> dt_shape_strict m = true) ->
+  (length inputs < 2)%nat \/ (exists m, In m inputs /\ wf_datetime m = false) ->
+  join_fixed inputs = Err EValue.
+Proof. intros _. apply join_rejects. Qed.
+
+(* inside the strict shape, being well-formed is a matter of numbers only *)
+Example strict_shape_ex :
+  let mk d t := mk_meas d t 0 0 [] [] [] [] in
+  (* "2024-02-30", "12:00:00": shape ok, not a date *)
+  dt_shape_strict (mk [50;48;50;52;45;48;50;45;51;48] t120000) = true
+  /\ wf_datetime (mk [50;48;50;52;45;48;50;45;51;48] t120000) = false
+  (* "12:00:60" is accepted by strptime: well-formed *)
+  /\ wf_datetime (mk d0305 [49;50;58;48;48;58;54;48]) = true
+  (* "2024-3-5": outside the strict shape (Python accepts it) *)
+  /\ dt_shape_strict (mk [50;48;50;52;45;51;45;53] t120000) = false.
+Proof. repeat split; vm_compute; reflexivity. Qed.
